@@ -36,6 +36,14 @@ func (w *World) PodSetMins() map[setKey]int {
 	return out
 }
 
+// substituted: evicted active members replaced, in the same cycle, by nominations of other pending members.
+func substituted(evictedActive, nominated int) int {
+	if nominated < evictedActive {
+		return nominated
+	}
+	return evictedActive
+}
+
 type GangFacts struct{ GangActed, GangBound, GangNominated, GangVictim, Moved, ElasticShrink, Anomalies int }
 
 // CheckGangs is the C03 oracle on one cycle.
@@ -124,8 +132,11 @@ func CheckGangs(w *World, rec *CycleRecord) ([]Finding, GangFacts) {
 		// must not be broken.
 		// (when no member stays put or is bound - every active member was evicted, some of them nominated again
 		// elsewhere - the set is evicted as a whole; the moved members are nominations, not running pods)
+		// (a move by substitution - members evicted and, in the same cycle, as many other pending members of the set
+		// nominated in their place - is the same decision as a move of the evicted members themselves: the solver
+		// re-places the victim workload with whichever of its pods come first; counted like moved members)
 		staying := a.retained - a.movedN
-		if staying > 0 && a.retained < min && (a.bound > 0 || a.activeBefore >= min) {
+		if staying > 0 && a.retained+substituted(a.evictedActive, a.nominated) < min && (a.bound > 0 || a.activeBefore >= min) {
 			out = append(out, Finding{"c03-pod-set-partially-running", fmt.Sprintf(
 				"pod set %s/%q (minimum %d) is left with %d active pods after the cycle's decisions: %v",
 				k.Workload, k.Set, min, a.retained, a.pods), rec.Index})
@@ -151,7 +162,7 @@ func CheckGangs(w *World, rec *CycleRecord) ([]Finding, GangFacts) {
 			stayingTotal += a.retained - a.movedN
 			bound += a.bound
 			nominated += a.nominated
-			if a.retained < mins[k] && (a.activeBefore >= mins[k] || a.bound > 0) {
+			if a.retained+substituted(a.evictedActive, a.nominated) < mins[k] && (a.activeBefore >= mins[k] || a.bound > 0) {
 				below = append(below, fmt.Sprintf("%q has %d of %d (had %d)", k.Set, a.retained, mins[k], a.activeBefore))
 			}
 			if a.retained < mins[k] && a.nominated > 0 {
